@@ -12,7 +12,8 @@ Record iop := IO {
   io_op : op;                    (* the call and what the environment decided *)
   io_res : result;               (* what the implementation returned *)
   io_cbs : list cbcall;          (* OnChange calls observed during the call *)
-  io_bcs : list bccall           (* BeforeChange calls observed during the call: listener, id, before, after *)
+  io_bcs : list bccall;          (* BeforeChange calls observed during the call: listener, id, before, after *)
+  io_id : id                     (* what the transaction's ID() returned right after the call *)
 }.
 
 Record kcase := KC {
@@ -68,8 +69,13 @@ Definition model_bc (k : skind) : kvstate -> op -> list bccall :=
   | SMock _ => fun _ _ => []
   end.
 
+(* the id a transaction reports is the one it was opened with, whatever happened since
+   (both stores have value receivers: mockstore's generated id is not visible through ID()) *)
+Definition op_id (o : op) : id :=
+  match o with OCreate i _ _ | OUpdate i _ _ | ODelete i _ | OValue i | OExists i => i end.
+
 (* field codes: 1 result of an operation, 2 OnChange calls of an operation, 3 final content,
-   4 BeforeChange calls of an operation *)
+   4 BeforeChange calls of an operation, 5 ID() of the transaction after the operation *)
 Fixpoint check_ops (k : skind) (obs : bool) (st : kvstate) (ops : list iop) : list N * kvstate :=
   match ops with
   | [] => ([], st)
@@ -78,7 +84,8 @@ Fixpoint check_ops (k : skind) (obs : bool) (st : kvstate) (ops : list iop) : li
       let '(codes, st2) := check_ops k obs st1 r in
       ((if result_eqb res (io_res o) then [] else [1]) ++
        (if negb obs || cbs_eqb cbs (io_cbs o) then [] else [2]) ++
-       (if bcs_eqb (model_bc k st (io_op o)) (io_bcs o) then [] else [4]) ++ codes, st2)
+       (if bcs_eqb (model_bc k st (io_op o)) (io_bcs o) then [] else [4]) ++
+       (if beq (op_id (io_op o)) (io_id o) then [] else [5]) ++ codes, st2)
   end.
 Definition check_case (c : kcase) : list N :=
   let '(codes, st) := check_ops (k_store c) (k_obs c) [] (k_ops c) in
